@@ -156,7 +156,7 @@ def worker_main(path):
 
 
 def run_worker(jobs, hashseed):
-    fd, path = tempfile.mkstemp(prefix="nvf_c14_", suffix=".json")
+    fd, path = tempfile.mkstemp(prefix="nvf_c14_", suffix=".json", dir=os.environ.get("NVF_TMP") or None)
     with os.fdopen(fd, "w") as f:
         json.dump(common.jsonable(jobs), f)
     env = dict(os.environ, PYTHONHASHSEED=str(hashseed), PYTHONPATH=f"{common.VERIF}:{common.REPO}",
